@@ -26,7 +26,7 @@ func isSupportedIPv6Partial(ip net.IP) bool {
 		// Deprecated IPv4-compatible IPv6 addresses [RFC4291] and IPv6 site-
 		//   local unicast addresses [RFC3879] MUST NOT be included in the
 		//   address candidates.
-		isZeros(ip[0:12]) || // !(IPv4-compatible IPv6)
+		(isZeros(ip[0:12]) && !ip.IsLoopback()) || // !(IPv4-compatible IPv6); ::1 shares the prefix but is the loopback address
 		ip[0] == 0xfe && ip[1]&0xc0 == 0xc0 { // !(IPv6 site-local unicast)
 		return false
 	}
